@@ -218,6 +218,48 @@ def run_history_case(case):
             finally:
                 if list(cls.PREFERRED_NAMES) != list(pref):
                     cls.PREFERRED_NAMES[:] = list(pref)
+    if not hist and not out and not pref:
+        # the class declares no preference, one instance is given one (by assignment): its aliased export is the export of a class
+        # that declares the same preference
+        groups = {}
+        for a in amap:
+            if resolve(amap, a) in VARS and a != resolve(amap, a):
+                groups.setdefault(resolve(amap, a), []).append(a)
+        for c0, als in sorted(groups.items()):
+            if len(als) < 2:
+                continue
+            chosen = sorted(als)[0]
+            inst = cls(list(span), strict=strict, **dict(INIT))
+            inst.preferred_names = [chosen]
+            declared_cls = make_class(amap, [chosen])
+            ref = declared_cls(list(span), strict=strict, **dict(INIT))
+            try:
+                got, want = inst.to_dataframe(use_aliases=True), ref.to_dataframe(use_aliases=True)
+                if list(got.columns) != list(want.columns) or not got.equals(want):
+                    out.append(('export:instance-preference-ignored', list(want.columns), list(got.columns), 'a preferred name given to one instance of a class that declares none is not used by the aliased export'))
+            except Exception as e:
+                out.append(('export:instance-preference:%s' % type(e).__name__, 'a table', repr(e)[:120], 'aliased export with an instance-level preference fails'))
+            finally:
+                if list(cls.PREFERRED_NAMES) != list(pref):
+                    cls.PREFERRED_NAMES[:] = list(pref)
+            break
+    if not hist and not out and amap_effective(amap):
+        # a subclass that adds a hook and declares nothing itself inherits the aliases: same reads, same export
+        sub = type('Scenario', (cls,), {'solve_t_before': lambda self, t, **kw: None})
+        try:
+            si = sub(list(span), strict=strict, **dict(INIT))
+            pi = cls(list(span), strict=strict, **dict(INIT))
+            for a in sorted(amap_effective(amap)):
+                if canon(np.asarray(si[a])) != canon(np.asarray(pi[a])):
+                    out.append(('inherited-aliases:read', 'as on the declaring class', a, 'an alias declared on a parent class does not read its variable on a subclass'))
+                    break
+            else:
+                if sorted(si.aliases.items()) != sorted(pi.aliases.items()) or not si.to_dataframe(use_aliases=True).equals(pi.to_dataframe(use_aliases=True)):
+                    out.append(('inherited-aliases:export', sorted(pi.aliases.items()), sorted(si.aliases.items()), 'a subclass of an aliased class exports differently'))
+        except ValueError:
+            pass   # (an ambiguous declaration is refused on both)
+        except Exception as e:
+            out.append(('inherited-aliases:%s' % type(e).__name__, 'as on the declaring class', repr(e)[:120], 'a subclass of an aliased class cannot use the aliases'))
     if not hist and not out:
         # a preference added to ONE instance is that instance's: the class declaration and later instances keep the declared list
         declared = list(pref)
